@@ -80,3 +80,22 @@ PROPS["C08"] = {
     "quick": [P("TestRegress"), R("TestPropCrashRecovery", 200, steps=30)],
     "thorough": [P("TestRegress"), R("TestPropCrashRecovery", 1500, shards=16, steps=40, timeout=3000)],
 }
+
+PROPS["C10"] = {
+    "pkg": "c10", "level": "exploration",
+    "rule": ("rapid state machine over one aggregator built with aggregator.NewMocked (injected clock, harness-owned tick channel, inBuf=0 so "
+             "AddMaybe+Snapshot is a barrier): actions point(name,val,ts) with ts drawn relative to the clock (current/previous buckets, exactly "
+             "now-wait, now-wait+-1, far past, future, relative to the last tick), advance(dt in {0,1,interval,wait,...}), tick(t<=now, "
+             "non-decreasing); all ten functions, interval 1..60, wait 0..120, cache on/off, rules with and without capture groups, values "
+             "dyadic rationals. Oracle = reference aggregator written from the statement/docs (bucket = (expanded name, ts-ts%interval); join "
+             "existing bucket or open iff start>now-wait else too old; tick emits start<=t-wait ascending), compared after every tick as a "
+             "multiset (tolerance 1.5e-6), plus ascending order, six-decimal formatting, never-twice set, TooOld counter after every point. "
+             "Non-trivial: history with >=2 buckets open at once AND an out-of-order point AND a point at the cutoff AND a late point for a "
+             "closed bucket. Distinct = hash(rule, full history)."),
+    "level_text": "Model-based stateful testing with a harness-owned clock: every arrival/tick interleaving generated is deterministic and compared with a reference aggregator; holds on all generated histories.",
+    "level_note": "Go regexp Expand trusted for output-name expansion; clock non-decreasing and ticks <= now, as the statement assumes; derive ties at the extreme timestamps accept any tied value.",
+    "technique": "property-based testing (rapid state machine) against a reference aggregator model",
+    "assumptions": ["non-decreasing clock", "tick times never exceed the clock"],
+    "quick": [R("TestPropAggregator", 4000, steps=60)],
+    "thorough": [R("TestPropAggregator", 60000, shards=16, steps=80, timeout=2400)],
+}
